@@ -435,7 +435,8 @@ def run(chk):
         if any(v == -INF for v in lw):
             chk.count("has -inf")
         fin = [v for v in lw if v != -INF]
-        if fin and sum(1 for v in fin if v == max(fin)) > 1:
+        mxw = max(fin) if fin else None
+        if fin and sum(1 for v in fin if v == mxw) > 1:
             chk.count("ties at the maximum")
         if len(set(fin)) >= 2:
             chk.nontriv((c["kind"], lw, c.get("us"), c.get("n")))
